@@ -387,6 +387,8 @@ def run_crash(ctx, jinja2, only=None):
     bounds = list(itertools.accumulate(chunks))
     for with_old in (False, True):
         for mode in ("crash", "fault"):
+            if ctx.tier == "quick" and mode == "fault" and with_old and only is None:
+                continue                     # quick: faults with an older entry present only in the thorough tier
             for point, label in enumerate(labels):
                 if mode == "fault" and label in ("after-create", "after-replace"):
                     continue
@@ -480,11 +482,23 @@ def unsafe():
 
 
 unsafe.unsafe_callable = True
-CTX = {"x": "<b>", "f": unsafe}
+
+
+class Obj:
+    """an object with a method marked @unsafe: a sandbox must refuse {{ o.delete() }}"""
+    deleted = 0
+
+    def delete(self):
+        Obj.deleted += 1
+        return "DELETED"
+    delete.unsafe_callable = True           # what jinja2.sandbox.unsafe sets
+
+
+CTX = {"x": "<b>", "f": unsafe, "o": Obj()}
 
 
 def text_of(s):
-    return f"v{s} {{{{ x }}}} {{% if true %}}\n{{% endif %}}|{{{{ f() }}}}\n   {{% if true %}}L{{% endif %}}\n"
+    return f"v{s} {{{{ x }}}} {{% if true %}}\n{{% endif %}}|{{{{ f() }}}}|{{{{ o.delete() }}}}\n   {{% if true %}}L{{% endif %}}\n"
 
 
 def render(t):
@@ -504,7 +518,7 @@ def run_shared(ctx, jinja2, only=None):
     pairs = [(0, 0), (0, 1), (1, 0), (0, 2), (0, 3), (3, 0), (1, 1), (0, 4), (4, 0), (0, 5), (0, 6)]
     hist = [list(h) for n in range(1, L + 1) for h in itertools.product(ops_alpha, repeat=n)]
     extra = [list(h) for i, h in enumerate(itertools.product(ops_alpha, repeat=L + 1)) if i % 3 == 0] if ctx.tier == "thorough" else \
-        [[ctx.rng.choice(ops_alpha) for _ in range(ctx.rng.randint(4, 7))] for _ in range(150)]
+        [[ctx.rng.choice(ops_alpha) for _ in range(ctx.rng.randint(4, 7))] for _ in range(60)]
     cases = [(p, h) for p in pairs for h in hist] + [(p, h) for p in (((0, 1), (0, 0), (3, 0)) if ctx.tier == "quick" else ((0, 1), (0, 0))) for h in extra]
     # the same histories on the other backends / options: memcached client with a prefix and a timeout ("clear" = the
     # client loses its entries), a FileSystemBytecodeCache with a custom pattern
@@ -842,6 +856,80 @@ def run_options(ctx, jinja2):
     shutil.rmtree(d, ignore_errors=True)
 
 
+# ------------------------------------------------------------------------------------------- source edits a checksum could conflate
+CONFLATE = {
+    # class -> spellings that a normalising checksum might identify (they lex / render differently)
+    "line-boundary": ["\n", "\r\n", "\r", "\u2028", "\u2029", "\x0b", "\x0c", "\x1c", "\x1d", "\x1e", "\x85", " "],
+    "trailing-newline": ["", "\n", "\n\n", "\r\n"],
+    "surrogate": ["\ud800", "\udfff", "\udc80", "?", "\ufffd"],
+    "nul-bom-zero-width": ["", "\x00", "\ufeff", "\u200b", "\u00ad"],
+    "case": ["a", "A", "\u0131", "I"],
+    "whitespace": [" ", "  ", "\t", "\u00a0", "\u3000", ""],
+    "normal-form": ["\u00e9", "e\u0301", "\u212b", "\u00c5", "\ufb01", "fi"],
+}
+
+
+def run_conflate(ctx, jinja2, only=None):
+    """modify steps whose old and new source differ ONLY in characters a checksum normalisation could conflate: load the old
+    source through the cache, change the source, load again in a fresh environment — the new source must be rendered"""
+    from jinja2.bccache import FileSystemBytecodeCache, MemcachedBytecodeCache
+
+    class Client:
+        def __init__(self):
+            self.d = {}
+
+        def get(self, key):
+            return self.d.get(key)
+
+        def set(self, key, value, timeout=None):
+            self.d[key] = value
+
+    d = os.path.join(ctx.bdir, "conflate")
+    for cls, spell in CONFLATE.items():
+        pairs = [(a, b) for a in spell for b in spell if a != b]
+        if ctx.tier == "quick":
+            pairs = [p for i, p in enumerate(pairs) if i % 2 == 0 or "\n" in p[0] + p[1]]
+        for (a, b) in pairs:
+            for backend, ktn in (("fs", False), ("mem", True)) if cls != "trailing-newline" else (("fs", True), ("mem", True), ("fs", False)):
+                if only is not None and (only.get("class"), only.get("old"), only.get("new"), only.get("backend")) != (cls, ascii(a), ascii(b), backend):
+                    continue
+                if cls == "trailing-newline":
+                    old, new = "x{{ 1 }}" + a, "x{{ 1 }}" + b
+                else:
+                    old, new = "[{{ '" + a.replace("\\", "") + "'|length }}" + a + "]", "[{{ '" + b.replace("\\", "") + "'|length }}" + b + "]"
+                shutil.rmtree(d, ignore_errors=True)
+                os.makedirs(d)
+                client = Client()
+                mk = (lambda: FileSystemBytecodeCache(d)) if backend == "fs" else (lambda: MemcachedBytecodeCache(client))
+                mapping = {"t": old}
+
+                def fresh(cache=True):
+                    return jinja2.Environment(loader=jinja2.DictLoader(mapping), bytecode_cache=mk() if cache else None, cache_size=0,
+                                              keep_trailing_newline=ktn)
+                case = {"kind": "conflate", "class": cls, "old": ascii(a), "new": ascii(b), "backend": backend, "keep_trailing_newline": ktn}
+                ctx.case(sample=case if len(ctx.samples) < 7 and cls == "line-boundary" and b == "\u2028" else None,
+                         key=("conflate", cls, a, b, backend))
+                ctx.count("conflate_" + cls)
+                try:
+                    ref_old = fresh(False).get_template("t").render()
+                    got_old = fresh().get_template("t").render()
+                    mapping["t"] = new
+                    ref_new = fresh(False).get_template("t").render()
+                    got_new = fresh().get_template("t").render()
+                except Exception as e:  # noqa
+                    ctx.count("conflate_not_compilable")
+                    continue
+                if only is not None:
+                    print("old:", repr(old), "->", repr(got_old), "| new:", repr(new), "->", repr(got_new), "| expected", repr(ref_new))
+                if got_old != ref_old or got_new != ref_new:
+                    ctx.reject(case, f"source changed from {old!r} to {new!r} (differs only in {cls} characters): through the bytecode cache "
+                                     f"the second load rendered {got_new!r}, the new source renders {ref_new!r}",
+                               "C27:stale-after-edit-of-" + cls)
+                else:
+                    ctx.validated()
+    shutil.rmtree(d, ignore_errors=True)
+
+
 # ------------------------------------------------------------------------------------------- names / sources outside UTF-8
 UNI = [("t", "a\ud800b {{ x }}"), ("n\ud800", "plain {{ x }}"), ("t\udfff", "\udc80{{ x }}"), ("é😀", "é😀\x00{{ x }}"),
        ("t", "{{ '\ud800' }}{{ x }}"), ("dir/\ud83d", "half a pair \ud83d {{ x }}")]
@@ -928,6 +1016,13 @@ def run(ctx):
     except bc_magic_gen.Untranslatable as e:
         ctx.obligations += 2
         ctx.broken.append(f"translator gen/bc_magic.py: {e}")
+    # T1: what get_source_checksum / get_cache_key hash — an injective encoding of the source / name / filename
+    import bc_hash
+    try:
+        ctx.coq_obligation("Gen_bc_hash", bc_hash.emit(lib.SRC), n_obligations=2)
+    except bc_hash.Untranslatable as e:
+        ctx.obligations += 2
+        ctx.broken.append(f"translator gen/bc_hash.py: {e}")
     run_load(ctx, jinja2, table)
     run_foreign(ctx, jinja2, table)
     run_flips(ctx, jinja2, table)
@@ -935,6 +1030,7 @@ def run(ctx):
     run_shared(ctx, jinja2)
     run_memcached(ctx, jinja2)
     run_options(ctx, jinja2)
+    run_conflate(ctx, jinja2)
     run_unicode(ctx, jinja2)
 
 
@@ -960,6 +1056,8 @@ def replay(ctx, data):
         run_unicode(ctx, jinja2, only=case)
     elif kind == "options":
         run_options(ctx, jinja2)
+    elif kind == "conflate":
+        run_conflate(ctx, jinja2, only=case)
     elif kind == "foreign":
         run_foreign(ctx, jinja2, regen_table(ctx), only=case)
     else:
